@@ -423,3 +423,104 @@ Fixpoint srun (c : pcfg) (s : sst) (ls : list slabel) : option sst :=
 Definition s_env (l : slabel) : bool :=
   match l with SClaim _ _ | SBClaim _ _ | SEnvBc => true | _ => false end.
 Definition s_is_tickw (l : slabel) : bool := match l with STickW _ => true | _ => false end.
+
+(* ============================ the heartbeat's life cycle ======================================= *)
+(* Both pools start their heartbeat goroutine (wakeupWaiters) ONCE - `runHeartbeatOnce.Do(go wakeupWaiters)` on the slow
+   path of get() - and rely on it for ever after: back() broadcasts without the condition lock, so a wake-up can be lost and
+   only a later heartbeat tick repairs it.  The transition systems above let the heartbeat tick at any time; this layer adds
+   the goroutine's life cycle on top of either of them:
+     HbNone  not started yet: no tick label is enabled
+     HbRun   running: the tick labels are those of the pool's transition system
+     HbGone  the goroutine has returned: no tick label is enabled ever again (the Once never fires a second time)
+   [hb_starts] / [hb_forever] are facts about the source, regenerated from the Go AST (Gen/PoolGen.v):
+     hb_starts   get() runs the Once on every path that reaches getCond.Wait()
+     hb_forever  wakeupWaiters is `for { if stopped { return }; sleep; ... }` with no other way out of the loop
+   With hb_forever = false the goroutine may return at any point ([HExit]): an over-approximation of "has an exit path".
+   Stopping the pool (shutdown) is outside this model.  Wall-clock time is outside it too: that the running heartbeat
+   DOES tick again and again (scheduler fairness: infinitely many ticks) is the liveness assumption, stated explicitly as
+   the hypothesis "the run contains heartbeat iterations" of the theorems [pool_fair_heartbeat_wakes_*]. *)
+Inductive hbst := HbNone | HbRun | HbGone.
+Record hcfg := { hb_starts : bool; hb_forever : bool }.
+Inductive hlab (Lab : Type) := HL (l : Lab) | HExit.
+Arguments HL {Lab} l.
+Arguments HExit {Lab}.
+Record hst (St : Type) := mk_hst { h_hb : hbst; h_s : St }.
+Arguments mk_hst {St} _ _.
+Arguments h_hb {St} _.
+Arguments h_s {St} _.
+
+Definition hb_running (b : hbst) : bool := match b with HbRun => true | _ => false end.
+
+Section HbLayer.
+  Context {St Lab : Type}.
+  Variable step : St -> Lab -> option St.
+  Variable is_start : Lab -> bool.    (* the label of the program point in front of the Once *)
+  Variable is_tick : Lab -> bool.     (* the labels of the heartbeat goroutine *)
+  Variable h : hcfg.
+
+  Definition hb_after (b : hbst) (l : Lab) : hbst :=
+    match b with HbNone => if is_start l && hb_starts h then HbRun else HbNone | _ => b end.
+
+  Definition hstep (s : hst St) (l : hlab Lab) : option (hst St) :=
+    match l with
+    | HExit => if hb_running (h_hb s) && negb (hb_forever h) then Some (mk_hst HbGone (h_s s)) else None
+    | HL l0 =>
+        if is_tick l0 && negb (hb_running (h_hb s)) then None
+        else match step (h_s s) l0 with
+             | Some s' => Some (mk_hst (hb_after (h_hb s) l0) s')
+             | None => None
+             end
+    end.
+
+  Fixpoint hrun (s : hst St) (ls : list (hlab Lab)) : option (hst St) :=
+    match ls with
+    | [] => Some s
+    | l :: r => match hstep s l with Some s' => hrun s' r | None => None end
+    end.
+End HbLayer.
+
+(* low-memory pool: the Once follows inUseEvents.Dec() of the slow path (LmDec) in program order - the heartbeat is taken
+   to run from that label on (it cannot tick earlier, it may start a moment later: irrelevant to what is proved) *)
+Definition l_is_start (l : llabel) : bool := match l with LmDec _ => true | _ => false end.
+Definition l_is_tick (l : llabel) : bool :=
+  match l with LmTickW _ | LmTickA _ | LmTickFire | LmTickEnd => true | _ => false end.
+Definition lhstep (c : pcfg) (h : hcfg) := hstep (lstep c) l_is_start l_is_tick h.
+Definition lhrun (c : pcfg) (h : hcfg) := hrun (lstep c) l_is_start l_is_tick h.
+Definition lhinit : hst lst := mk_hst HbNone linit.
+(* steps of the environment; the heartbeat's return is not one *)
+Definition lh_env (l : hlab llabel) : bool := match l with HL l0 => l_env l0 | HExit => false end.
+Definition lh_nonenv (ls : list (hlab llabel)) : Prop := forallb (fun l => negb (lh_env l)) ls = true.
+
+(* standard pool: the Once is on the slowest path of get(), reached after getCounter.Inc() (SClaim) - same remark *)
+Definition s_is_start (l : slabel) : bool := match l with SClaim _ _ => true | _ => false end.
+Definition s_is_tick (l : slabel) : bool :=
+  match l with STickW _ | STickA _ | STickFire | STickEnd => true | _ => false end.
+Definition shstep (c : pcfg) (h : hcfg) := hstep (sstep c) s_is_start s_is_tick h.
+Definition shrun (c : pcfg) (h : hcfg) := hrun (sstep c) s_is_start s_is_tick h.
+Definition shinit (c : pcfg) : hst sst := mk_hst HbNone (sinit c).
+Definition sh_env (l : hlab slabel) : bool := match l with HL l0 => s_env l0 | HExit => false end.
+Definition sh_nonenv (ls : list (hlab slabel)) : Prop := forallb (fun l => negb (sh_env l)) ls = true.
+
+(* ---- fairness: runs during which one getter stays asleep, and the heartbeat iterations they contain -------------------- *)
+(* [lrun_asleep c g s ls]: the run of ls from s, defined only when getter g is inside Cond.Wait() in every state reached *)
+Fixpoint lrun_asleep (c : pcfg) (g : Z) (s : lst) (ls : list llabel) : option lst :=
+  match ls with
+  | [] => Some s
+  | l :: r => match lstep c s l with
+              | Some s' => match lpc_of s' g with LSleep => lrun_asleep c g s' r | _ => None end
+              | None => None
+              end
+  end.
+Fixpoint srun_asleep (c : pcfg) (g : Z) (s : sst) (ls : list slabel) : option sst :=
+  match ls with
+  | [] => Some s
+  | l :: r => match sstep c s l with
+              | Some s' => match gpc_of s' g with GSleep _ => srun_asleep c g s' r | _ => None end
+              | None => None
+              end
+  end.
+(* heartbeat iterations of a run that found capacity free (`eventsAvailable` loaded as true) *)
+Definition l_avail_ticks (ls : list llabel) : nat :=
+  length (filter (fun l => match l with LmTickA true => true | _ => false end) ls).
+Definition s_avail_ticks (ls : list slabel) : nat :=
+  length (filter (fun l => match l with STickA true => true | _ => false end) ls).
